@@ -31,7 +31,10 @@ CHECKS["C12"] = ("TLC exhaustive check of Listeners.tla (lock/channel/goroutine 
     "client-side fate of every connection, re-bindability, goroutines left) is judged by TLC; free-running stress rounds likewise, "
     "plus mass acquire/release rounds (44 addresses) and a churn mode (tight acquire/accept/close loops on one address, ~100 000 "
     "rounds, events stamped from one atomic counter and written out in batches). An item sent after Close(h) returned may not "
-    "reach h (model flag CloseWaits: Close waits for the calls in flight).",
+    "reach h (model flag CloseWaits: Close waits for the calls in flight). A connection the server closes or resets although no call "
+    "returned it and a handle of its address was open all the time is a violation (client-side look before the cleanup; negative "
+    "control RecheckAfterRecv; steered close-then-receive schedules replayed with forced gate placement). Liveness under fairness: "
+    "GoroutinesEnd (accept/read goroutines end once every handle is closed), with the pinned stuck-accept variant as negative control.",
     "Bounded: 3 threads x <=4 calls, <=3 handles, 2-3 connections/datagrams, 3 keys; select nondeterminism can make a schedule "
     "diverge (counted, never an alarm). Trusts runtime.Stack wait states and loopback TCP/UDP semantics.",
     "DESIGN.md section 4 C12, 9a, 9d")
@@ -44,7 +47,9 @@ CHECKS["C13"] = ("TLC deadlock check of Listeners.tla + TLC schedules (incl. the
     "of the pinned commit is kept as a negative control and as regression schedules. Accept failures (EMFILE, injected by exhausting "
     "the driver's descriptor table around the accept) are part of the model (GacceptErr) and of the schedules; a driver process that "
     "dies with a panic in the repository's frames is a violation; stress adds mass acquire/release rounds (44 addresses), tcp and udp "
-    "of one port, debug logging, and churn loops (~100 000 acquire/accept/close rounds).",
+    "of one port, debug logging, and churn loops (~100 000 acquire/accept/close rounds). Liveness form under weak fairness of threads "
+    "and listener goroutines (FairSpec, no schedule history, no VIEW): EventuallySettled (every call returns or waits for traffic on "
+    "an open handle, stably) and NoStarvation; the pinned deadlock variant must violate it.",
     "Bounded: 3 threads, 3 keys, <=4 calls per thread exhaustively; more threads only in stress. A deadlock needs the watchdog "
     "(2 s) to expire with listen/close calls outstanding; slow machines cannot cause it because gates are opened first.",
     "DESIGN.md section 4 C13, 9a, 9d")
@@ -110,7 +115,10 @@ CHECKS["C05"] = ("TLC exhaustive check of AddrPolicy.tla (block table + RequireP
     "negative configs must be refuted. The real RequirePublicIP is compared with the TLC-generated table; TLC-generated TCP/UDP "
     "scenarios (all SOCKS encodings, resolver answer sets, forbidden destination at datagram position 1,2,k) run through the real "
     "handlers with the default dialer/validator against sinks on 127.0.0.1, ::1, fd00::2, fe80::%eth0 and 192.0.2.2; the thorough "
-    "tier sweeps all 2^32 IPv4 addresses in both byte forms.",
+    "tier sweeps all 2^32 IPv4 addresses in both byte forms. Concurrent stage (AddrPolicyConc.tla: two Handle loops as two processes "
+    "on one packet handler, loop-local decoded target, negative control SharedScratch): two listeners with their own Handle "
+    "goroutines on one real packet handler, two clients sending 40 000 datagrams each to TLC-given public and forbidden "
+    "destinations; any arrival at a forbidden sink is a private-contact violation.",
     "IPv6 by prefix class x boundaries x seeded fill, not all 2^128. 192.0.2.2 (TEST-NET-1) is the reachable stand-in for a public "
     "address. Forbidden destinations without a local sink are judged by status only.",
     "DESIGN.md section 4 C05")
@@ -133,7 +141,10 @@ CHECKS["C20"] = ("TLC exhaustive enumeration of the location decision table (Loc
     "enabled' is enumerated completely by TLC; every row is executed against ipinfo.GetIPInfoFromAddr/FromIP with ~90 concrete "
     "addresses per class and 8 database behaviours (calls recorded). Exposure: TLC-generated histories drive the real "
     "NewServiceMetrics collectors from distinctive client addresses; the exposition is scanned for every textual form of the client "
-    "IPs and ports, label names must be in the fixed set and `port` values must be listener addresses.",
+    "IPs and ports, label names must be in the fixed set and `port` values must be listener addresses. Scrape racing a registration "
+    "(LocationLabelRace.tla: Begin / Release of a first tunnel, ScrapeBegin / Observe / ScrapeEnd; AtomicRegister = FALSE is the "
+    "negative control): TLC schedules replayed on the real collectors with a location database whose lookup blocks on a channel; "
+    "with lookup enabled no exported tunnel-time series may carry the empty location and every client has one location.",
     "'Global' is read as Go's IsGlobalUnicast (private ranges are looked up, as the repository's own test pins). No process-level "
     "/metrics scan.",
     "DESIGN.md section 4 C20")
@@ -172,7 +183,9 @@ CHECKS["C02"] = ("TLC exhaustive check of TcpConn.tla relay phase (all orders of
     _TC + "C02: delivered bytes are a prefix of what was sent and equal it at FIN, FIN only after all data, the other direction keeps "
     "flowing after a half-close, everything sent is eventually delivered (fairness). Scripts generated by TLC (chunks mapped to sizes "
     "0,1,2,1000,16383,random; address types 1/3/4; address alone or coalesced) run on loopback sockets; client and target record "
-    "lengths, SHA-256 digests and FINs, which TLC validates.",
+    "lengths, SHA-256 digests and FINs, which TLC validates. A concurrent family merges 40-300 single-connection behaviours into one "
+    "behaviour of the n-connection model: all clients dial ONE listener back to back (a burst through StreamServe's accept loop) and "
+    "every connection is judged separately.",
     "Chunk sizes are sampled, not all 16383; <=3 chunks each way in the exhaustive model.",
     "DESIGN.md section 4 C02")
 CHECKS["C06"] = ("TLC exhaustive check of TcpConn.tla pre-authentication and drain phases with a logical clock + TLC-generated probe scripts on the "
@@ -193,7 +206,9 @@ CHECKS["C15"] = ("TLC exhaustive check of the metrics observation language of Tc
     "outcome class, and the four byte counters equal the wire counts of complete connections (never exceed them otherwise). "
     "Scenarios for success, cipher failure, both replay kinds, bad / disallowed address, connect failure and relay errors either "
     "way run on the real handler; a second pass uses prometheus.NewServiceMetrics in a private registry; a concurrent variant "
-    "compares totals over 50-500 connections.",
+    "compares totals over 50-500 connections. The harness counts underneath the handler what its read calls on the client socket "
+    "returned; AddProbe must carry exactly that number at the moment it is called (C15_ProbeBytes), also when the listener closes "
+    "while the probe is being absorbed (family steered so that bytes beyond the search window are absorbed before the close).",
     "Exact spelling of statuses that PROBES.md does not document is compared as drift.",
     "DESIGN.md section 4 C15")
 _UD = ("UdpNat.tla models packetHandler.Handle, trial decryption over a key-list snapshot, validatePacket, the NAT map, natconn deadlines "
@@ -204,7 +219,8 @@ CHECKS["C03"] = ("TLC exhaustive check of UdpNat.tla + TLC-generated datagram se
     "identity; replies under the same key with a fresh salt and the true sender in the header (IPv4 type 1, IPv6 type 4); invalid "
     "datagrams cause no socket, no entry, no outbound traffic. Behaviours (valid / wrong-key / truncated / garbage, sizes 0..max+1, "
     "replies from the addressed target, another port, a stranger) run through the real handler; clients decrypt replies under every "
-    "key to learn which was used.",
+    "key to learn which was used. FwdToNamed: every target observation sits on the destination named in that datagram's own header "
+    "(steered family with same-length target switches inside one live association: other port, other IP, other host name).",
     "<=3 clients, <=3 keys, <=6 datagrams per behaviour in the exhaustive model.",
     "DESIGN.md section 4 C03")
 CHECKS["C04"] = ("TLC exhaustive check of the NAT-table invariants of UdpNat.tla + the C03 driver with >=3 client sockets and >=2 targets recording "
